@@ -144,6 +144,8 @@ def _parse_line(line, res, steps, inline, cur):
         res["sites"] = [x for x in t[1:] if x]
     elif tag == "H":
         res["header"] = parse_kv(t[1:])
+    elif tag == "L":
+        res["limits"] = parse_kv(t[1:])
     elif tag == "T":
         res.setdefault("finals", {})[t[1]] = parse_kv(t[3:])
     elif tag == "BUG":
@@ -284,14 +286,27 @@ def project_fan(res, variant, relay=False):
     workers' reads and closes are events too)"""
     m = res["M"] or {}
     f, n = res["header"].get("fanout", m.get("fanout", "0")), res["header"].get("n", m.get("n", "0"))
+    lim = res.get("limits") or {}
+    opts = res["case"].get("opts") or {}
     if relay:
-        L = ["initr %s %s %s %d" % (variant, f, n, 1 if (res["case"].get("opts") or {}).get("sopt") else 0)]
+        L = ["initr %s %s %s %d" % (variant, f, n, 1 if opts.get("sopt") else 0)]
+    elif lim:
+        # the environment LTS (Dsh/FanX.lean): -k, the descriptor limits dsh() was called with
+        L = ["initx %s %s %s %d %s %s" % (variant, f, n, 1 if opts.get("k") else 0, lim["soft0"], lim["hard0"])]
     else:
         L = ["init %s %s %s" % (variant, f, n)]
+    if lim:
+        # `_increase_nofile_limit` as a function: fanout and soft limit it left behind
+        L.append("lim %s %s %s %s %s" % (f, lim["soft0"], lim["hard0"], lim["fanout_used"], lim["soft"]))
+    cfl = {}
+    for idx, t in ([] if relay else res["inline"]):
+        if len(t) >= 3 and t[1] == "createfail":
+            cfl.setdefault(idx, []).append("ev D createfail %s" % t[2].lstrip("W"))
     inl = {}
     for idx, t in (res["inline"] if relay else []):
         inl.setdefault(idx, []).append(t)
     for k, (s, ev) in enumerate(res["steps"]):
+        L += cfl.get(k, [])
         L += relay_lines(inl.get(k, []))            # what happened inline after step k-1
         fe = fan_event(ev)
         if fe is None:
@@ -301,8 +316,12 @@ def project_fan(res, variant, relay=False):
         L.append("ev " + " ".join(fe))
         if relay and ev[0].startswith("W") and ev[1] == "connectEnd" and int(ev[3]) < 0:
             L.append("cfail %s" % ev[0])
+    L += cfl.get(len(res["steps"]), [])
     L += relay_lines(inl.get(len(res["steps"]), []))
     status = m.get("status", "crash")
+    if status == "exit":
+        L.append("end exit %s" % m.get("code", "?"))
+        return L
     if status == "deadlock" and res.get("last_S"):
         s = res["last_S"]
         L.append("st %s %s %s %s" % (s["tc"], fan_filter(s["R"]), fan_filter(s["P"]), fan_filter(s["X"])))
